@@ -441,12 +441,44 @@ def malformed_targets(col, tmpdir):
         col.count('malformed_target_runs')
         if status == 0:
             col.violation('C19/whitespace-only-target-not-a-usage-error:' + channel, 'glom %s (stdin %r): status %r stdout %r' % (argv, stdin, status, out), None)
-    # unreadable files
-    for argv in (['--target-file', os.path.join(tmpdir, 'does-not-exist'), 'a'], ['--spec-file', os.path.join(tmpdir, 'nope'), '{}']):
-        status, out, err = run_cli(argv, '{}')
+    # unreadable files: missing, a directory, a path below a regular file, bytes that are not text (invalid UTF-8) - for the target
+    # file and for the spec file: a usage error (status 1, "error: ..."), never a traceback and never a result
+    regular = os.path.join(tmpdir, 'regular.json')
+    with open(regular, 'w') as f:
+        f.write('{"a": 1}')
+    subdir = os.path.join(tmpdir, 'a-directory')
+    os.makedirs(subdir, exist_ok=True)
+    binary = os.path.join(tmpdir, 'not-text.json')
+    with open(binary, 'wb') as f:
+        f.write(b'{"a": "\xff\xfe"}')
+    binary2 = os.path.join(tmpdir, 'not-text-2.txt')
+    with open(binary2, 'wb') as f:
+        f.write(b'\x80abc')
+    unreadable = [
+        ('missing-target-file', ['--target-file', os.path.join(tmpdir, 'does-not-exist'), 'a'], '{}'),
+        ('missing-spec-file', ['--spec-file', os.path.join(tmpdir, 'nope')], '{}'),
+        ('target-file-is-a-directory', ['--target-file', subdir, 'a'], None),
+        ('spec-file-is-a-directory', ['--spec-file', subdir], '{"a": 1}'),
+        ('target-file-below-a-regular-file', ['--target-file', os.path.join(regular, 'x.json'), 'a'], None),
+        ('spec-file-below-a-regular-file', ['--spec-file', os.path.join(regular, 'spec.txt')], '{"a": 1}'),
+        ('target-file-is-not-text', ['--target-file', binary, 'a'], None),
+        ('target-file-is-not-text:python-format', ['--target-format', 'python', '--target-file', binary2, 'a'], None),
+        ('target-file-is-not-text:yaml-format', ['--target-format', 'yaml', '--target-file', binary2, 'a'], None),
+        ('spec-file-is-not-text', ['--spec-file', binary2], '{"a": 1}'),
+    ]
+    for name, argv, stdin in unreadable:
+        status, out, err = run_cli(argv, stdin)
+        col.case(('unreadable', name), True)
         col.count('malformed_target_runs')
-        if status == 0 or 'error' not in (out + err).lower():
-            col.violation('C19/unreadable-file-not-a-usage-error', 'glom %s: status %r stdout %r stderr %r' % (argv, status, out, short(err)), None)
+        col.count('unreadable_file_runs')
+        produced_result = status == 0 or out.strip().startswith(('{', '[', '"'))
+        if name.startswith('spec-file') or name == 'missing-spec-file':
+            # (the statement speaks of the target; for an unreadable SPEC file only "no result" is demanded)
+            bad = produced_result
+        else:
+            bad = status != 1 or not (out + err).lstrip().startswith('error:') or produced_result
+        if bad:
+            col.violation('C19/unreadable-file-not-a-usage-error:' + name.split(':')[0], 'glom %s: status %r stdout %r stderr %r' % (argv, status, out, short(err)), None)
 
 
 def hostile_texts(canary):
